@@ -211,6 +211,12 @@ type RunObs struct {
 	// Repeat: the last call of the driven run ended without writing (it completed or failed), so the checkpoint of
 	// the last interrupt is still in the store; the same call made once more resumes from those bytes again (C05).
 	Repeat    *SegObs    `json:"repeat,omitempty"`
+	// Retry phase (Case.Retry, C05): RetrySegs = the calls of one more driven run on the same compiled runnable
+	// (another id), in which the call RetryAt failed with an injected transient node error (RetryFault, nothing
+	// written) and was then made again; RetrySegs[k] is the k-th call that was not the faulted one.
+	RetrySegs  []*SegObs `json:"retry_segs,omitempty"`
+	RetryFault *SegObs   `json:"retry_fault,omitempty"`
+	RetryAt    int       `json:"retry_at,omitempty"`
 	RefScheds  []SchedObs `json:"ref_scheds,omitempty"`
 	Scheds     []SchedObs `json:"scheds,omitempty"`
 }
@@ -460,7 +466,10 @@ func (c *Case) input() map[string]any {
 
 // Execute runs the reference (uninterrupted, no interrupt configuration, rerun tables off)
 // and then the interrupted run with up to MaxResumes resumes.
-func Execute(c *Case) *RunObs {
+func Execute(c *Case) *RunObs { return ExecuteFor(c, false) }
+
+// ExecuteFor: retryPhase = also run the retry phase of Case.Retry (C05 only).
+func ExecuteFor(c *Case, retryPhase bool) *RunObs {
 	obs := &RunObs{}
 	ctx := context.Background()
 
@@ -509,6 +518,20 @@ func Execute(c *Case) *RunObs {
 		return obs
 	}
 	obs.ListNote = ib.listNote()
+	// the runnable a resume call is made on: the one that was interrupted, or (Case.Restart) a freshly compiled
+	// one that shares nothing with it but the store
+	resumeOn := func() compose.Runnable[map[string]any, map[string]any] {
+		if !c.Restart {
+			return ir
+		}
+		nb := &builder{c: c, rec: rec, withIntr: true, store: ib.store}
+		var nr compose.Runnable[map[string]any, map[string]any]
+		var nerr error
+		if p := lib.Recover(func() { nr, nerr = nb.compile(ctx) }); p != nil || nerr != nil {
+			return ir // cannot happen: the same construction compiled a moment ago
+		}
+		return nr
+	}
 	driveRun := func(id string) (segs []*SegObs, finished bool) {
 		for k := 0; k <= MaxResumes; k++ {
 			cs := c.Calls[k%len(c.Calls)]
@@ -518,7 +541,11 @@ func Execute(c *Case) *RunObs {
 			} else {
 				in = map[string]any{"resume": strconv.Itoa(k)} // must be ignored by a resumed run
 			}
-			seg := call(ir, rec, st, cs, !c.NoID, id, in)
+			on := ir
+			if k > 0 {
+				on = resumeOn()
+			}
+			seg := call(on, rec, st, cs, !c.NoID, id, in)
 			segs = append(segs, seg)
 			if seg.Class != "interrupt" {
 				finished = true
@@ -547,7 +574,7 @@ func Execute(c *Case) *RunObs {
 		rec.mu.Lock()
 		rec.rerunOn = false
 		rec.mu.Unlock()
-		obs.Repeat = call(ir, rec, st, c.Calls[(n-1)%len(c.Calls)], true, cpID, map[string]any{"resume": strconv.Itoa(n - 1)})
+		obs.Repeat = call(resumeOn(), rec, st, c.Calls[(n-1)%len(c.Calls)], true, cpID, map[string]any{"resume": strconv.Itoa(n - 1)})
 		rec.mu.Lock()
 		rec.rerunOn = true
 		rec.mu.Unlock()
@@ -564,6 +591,65 @@ func Execute(c *Case) *RunObs {
 		rec.attempts = map[int]int{}
 		rec.mu.Unlock()
 		obs.Segs2, obs.Finished2 = driveRun(cpID + "-second")
+	}
+	// Retry phase: a resume call that fails (a transient node error: nothing is written, the checkpoint of the
+	// preceding interrupt stays in the store) and is then made again resumes from the same stored bytes: apart
+	// from the failed call the run shows, call by call, what the first driven run showed. Only where nothing
+	// depends on goroutine scheduling (no Workflow in the forest).
+	if n := len(obs.Segs); retryPhase && c.Retry > 0 && !c.NoID && st != nil && !eager && obs.Finished && n >= 2 && c.SetFailAt == 0 {
+		at := 1 + (c.Retry-1)%(n-1)
+		obs.RetryAt = at
+		rec.mu.Lock()
+		rec.attempts = map[int]int{}
+		rec.mu.Unlock()
+		id := cpID + "-retry"
+		for k := 0; k < n; k++ {
+			cs := c.Calls[k%len(c.Calls)]
+			in := c.input()
+			if k > 0 {
+				in = map[string]any{"resume": strconv.Itoa(k)}
+			}
+			on := ir
+			if k > 0 {
+				on = resumeOn()
+			}
+			if k == at {
+				rec.mu.Lock()
+				saved := make(map[int]int, len(rec.attempts))
+				for a, b := range rec.attempts {
+					saved[a] = b
+				}
+				rec.failNext = true
+				rec.mu.Unlock()
+				f := call(on, rec, st, cs, true, id, in)
+				rec.mu.Lock()
+				injected := !rec.failNext
+				rec.failNext = false
+				rec.mu.Unlock()
+				if injected {
+					obs.RetryFault = f
+					rec.mu.Lock()
+					rec.attempts = saved
+					rec.mu.Unlock()
+					on = ir
+					if k > 0 {
+						on = resumeOn()
+					}
+				} else {
+					// no lambda started in this call (it stopped at once): nothing failed, it is call k itself
+					obs.RetrySegs = append(obs.RetrySegs, f)
+					if f.Class != "interrupt" {
+						break
+					}
+					continue
+				}
+			}
+			seg := call(on, rec, st, cs, true, id, in)
+			obs.RetrySegs = append(obs.RetrySegs, seg)
+			if seg.Class != "interrupt" {
+				break
+			}
+		}
 	}
 	return obs
 }
